@@ -67,7 +67,7 @@ bool CreateObjectHandler::HandleRequest(
 	}
 
 	/* Sanity checks for unique groups array. */
-	if (attrs->Contains("groups")) {
+	if (attrs && attrs->Contains("groups")) {
 		Array::Ptr groups = attrs->Get("groups");
 
 		if (groups)
